@@ -330,11 +330,11 @@ class CppCliFunction(CppCliBaseType):
     @cached_property
     def typename(self) -> str:
         if self.decl.anonymous:
-            parameters = ', '.join([param.cppcli.typename for param in self.decl.parameters])
+            parameters = [param.cppcli.typename for param in self.decl.parameters]
             if self.decl.return_type_ref:
-                return f"System::Func<{parameters}, {self.return_typename}>"
+                return f"System::Func<{', '.join(parameters + [self.return_typename])}>"
             elif self.decl.parameters:
-                return f"System::Action<{parameters}>"
+                return f"System::Action<{', '.join(parameters)}>"
             else:
                 return "System::Action"
         else:
